@@ -10,12 +10,12 @@ myth_barrier_t B;
 volatile int arrived[ROUNDS]; int serial[ROUNDS]; int returned[ROUNDS];
 void verif_init(void){ verif_model_init(); myth_barrier_init_body(&B, 0, VN); }
 #define BROUND(k) do { \
-    arrived[k]++; \
+    __sync_fetch_and_add(&arrived[k], 1); \
     int r = myth_barrier_wait_body(&B); \
     verif_check(arrived[k] == VN, "C06 nobody returns from round k before all N entered round k"); \
     verif_check(r == 0 || r == MYTH_BARRIER_SERIAL_THREAD, "C06 wait returns 0 or the serial-thread indicator"); \
-    if (r == MYTH_BARRIER_SERIAL_THREAD) serial[k]++; \
-    returned[k]++; \
+    if (r == MYTH_BARRIER_SERIAL_THREAD) __sync_fetch_and_add(&serial[k], 1); \
+    __sync_fetch_and_add(&returned[k], 1); \
   } while (0)
 static inline void participant(int me){
   (void)me;
